@@ -85,6 +85,7 @@ class C16(FloatSpec):
     PROP = 'C16'
     PROOF_MODULES = ['PsiProofs.C16']
     DESIGN_REF = 'DESIGN.md §6 C16'
+    PARALLEL = 16
     TRUST = [
         'proof is over the real / complex numbers: floating-point round-off is NOT bounded by a theorem; the Float '
         'instance of the same definitions is compared with psiaudio.util on every run (1e-10 of the largest magnitude)',
@@ -239,7 +240,10 @@ class C16(FloatSpec):
     # ---------------------------------------------------------------- the property on the implementation
     def oracle(self, c, impl_out):
         with quiet():
-            return self._oracle(c)
+            try:
+                return self._oracle(c)
+            except (ValueError, IndexError, ZeroDivisionError, TypeError) as e:
+                return f'a spectrum helper raised {type(e).__name__}: {e} on a valid input ({self.describe(c)[:200]})'
 
     def _oracle(self, c):
         from psiaudio import util
@@ -341,9 +345,10 @@ class C16(FloatSpec):
         if abs(tp - A) > P_TOL * A or abs(wrap(np.angle(r) - p)) > P_TOL:
             return (f'tone_conv on a whole-cycle tone (A={A!r}, p={p!r}, n={n}, k={k}, fs={fs!r}, window={w}) gives '
                     f'power {tp!r}, phase {np.angle(r)!r}')
-        # defaults (detrend='linear'): the least-squares line through whole cycles of a sinusoid is not zero.
-        # Its slope is at most 6*sqrt(2)*A / ((n^2-1) sin(pi k/n)) and a unit ramp reads sqrt(2)/(2 sin(pi k/n)) / ... at
-        # bin k, so the reading at bin k moves by at most  A * 6 / ((n^2-1) sin^2(pi k/n))  — the stated tolerance.
+        # defaults (detrend='linear'): the least-squares line through whole cycles of a sinusoid is not zero.  Its
+        # slope is at most 6*sqrt(2)*A / ((n^2-1) sin(pi k/n)), and a unit ramp reads 1 / (sqrt(2) sin(pi k/n)) at
+        # bin k after the csd scaling, so the reading at bin k moves by at most  A * 6 / ((n^2-1) sin^2(pi k/n))
+        # — the stated tolerance of this part of the check (x1.05).
         bias = 6.0 / ((n * n - 1) * math.sin(math.pi * k / n) ** 2)
         if bias < 0.2:
             tol = 1.05 * bias + 1e-9
